@@ -38,7 +38,29 @@ func waterCase(tag string, g *hermes.GlobalVarsMain, l *hermes.WaterSharedVars, 
 		s0 += start[i] * g.DZ.Num
 	}
 	q10 := g.Q1[0]
+	tp0 := append([]float64{}, g.TP[:n]...)
 	hermes.Water(wdt, subd, zeit, g, l)
+	// C06 on the real kernel: per-layer bounds of the sub-step
+	maxCaps := 0.0
+	for _, c := range g.CAPS {
+		maxCaps = math.Max(maxCaps, c)
+	}
+	for i := 0; i < n; i++ {
+		wg1 := g.WG[1][i]
+		if !finite(wg1) {
+			continue
+		}
+		tp := g.TP[i] // clamped uptake (sub-step 1) or the day's uptake
+		_ = tp0
+		after := start[i]*g.DZ.Num - tp*wdt
+		lim := g.WMIN[i] / 3
+		if after >= lim*g.DZ.Num && g.W[i] >= lim && g.DRAIFAK >= 0 && g.DRAIFAK <= 1 && wg1 < lim-1e-12 {
+			oracleFail("substep-below-dryness-limit tag=%s layer=%d start=%v end=%v limit=%v fluss0=%v", tag, i+1, start[i], wg1, lim, g.FLUSS0)
+		}
+		if wg1 > g.W[i]+maxCaps*wdt+1e-12 {
+			oracleFail("substep-above-field-capacity tag=%s layer=%d end=%v fc=%v", tag, i+1, wg1, g.W[i])
+		}
+	}
 	out := jobj{
 		"tp": hxs(g.TP[:n]), "wg1": hxs(g.WG[1][:n+1]), "q1": hxs(g.Q1[:n+1]), "ev": hxs(l.EV[:n+1]),
 		"qdrain": hx(g.QDRAIN),
